@@ -463,9 +463,13 @@ package boltz
 //@   pure
 //@   ensures[typed-directed] result != nil && (forward ==> istype(result, *TypedForwardBoltCursor)) && (!forward ==> istype(result, *TypedReverseBoltCursor))
 
+// pathB(tx, path): the bucket a path of names leads to in a transaction, 0 if there is none (assumed stable while an
+// operation runs: index maintenance neither creates nor deletes the buckets on its own index path)
+//@ spec pathB(tx Int, p (Array Int Str), n Int) Int
 //@ func Path
 //@   pure
 //@   ensures result != nil ==> result.Bucket != nil
+//@   censures[the-bucket-at-the-path] (result != nil) == (pathB(tx, arr(path), len(path)) != 0) && (result != nil ==> ref(result.Bucket) == pathB(tx, arr(path), len(path)) && result.ErrorHolderImpl != nil && result.Err == nil && fresh(result))
 //@ func (*setIndex).OpenValueCursor
 //@   props C14
 //@   pure
